@@ -1,6 +1,7 @@
 use crate::codegen::symbols::SymbolIndex;
 use crate::codegen::ProgramCounter;
 use crate::parser::code_map::{CodeMap, Span};
+use crate::parser::Identifier;
 use std::ops::Range;
 
 #[derive(Debug, Default)]
@@ -13,6 +14,8 @@ pub struct SourceMapOffset {
     pub scope: SymbolIndex,
     pub span: Span,
     pub pc: Range<usize>,
+    /// The segment the bytes were emitted to (`pc` holds target addresses, which several segments may share)
+    pub segment: Identifier,
 }
 
 impl SourceMap {
@@ -24,11 +27,19 @@ impl SourceMap {
         &self.offsets
     }
 
-    pub fn add(&mut self, scope: SymbolIndex, span: Span, pc: ProgramCounter, len: usize) {
+    pub fn add(
+        &mut self,
+        scope: SymbolIndex,
+        span: Span,
+        segment: &Identifier,
+        pc: ProgramCounter,
+        len: usize,
+    ) {
         let offset = SourceMapOffset {
             scope,
             span,
             pc: pc.as_usize()..(pc.as_usize() + len),
+            segment: segment.clone(),
         };
         self.offsets.push(offset);
     }
